@@ -2,6 +2,7 @@ package e2
 
 import (
 	"fmt"
+	"strings"
 	"verifsim/detsim"
 	"verifsim/simsync"
 )
@@ -101,7 +102,35 @@ func twinOf(t int) int {
 	return -1
 }
 
+// tagVariant: a tag name that differs from tg only by blanks around it or by the case of its letters. Struct tag keys are
+// matched exactly, so such a name is a tag name of its own (no field carries it: alone the call finds no rule) and must never
+// share anything with its twin (seeded C12y trimmed, C08y trimmed and lower-cased the tag name in the cache key only).
+func tagVariant(r *detsim.Rand, tg string) string {
+	if tg == "" || tg == EmptyTag {
+		tg = "valid"
+	}
+	switch r.Intn(5) {
+	case 0:
+		return tg + " "
+	case 1:
+		return " " + tg
+	case 2:
+		return strings.ToUpper(tg[:1]) + tg[1:]
+	case 3:
+		return strings.ToUpper(tg)
+	}
+	return "\t" + tg + " "
+}
+
 func tagFor(r *detsim.Rand, t int) string {
+	tg := tagFor0(r, t)
+	if r.Chance(1, 10) {
+		return tagVariant(r, tg)
+	}
+	return tg
+}
+
+func tagFor0(r *detsim.Rand, t int) string {
 	if t >= 1000 {
 		return []string{"", "", "v2", "valid", EmptyTag}[r.Weighted([]int{3, 3, 3, 3, 1})]
 	}
